@@ -175,6 +175,7 @@ func runC16(c *Ctx) {
 	runC16Mixed(c)
 	w := GetATWorld()
 	runC16WaitOptions(c, w)
+	runC16ResultSets(c, w)
 	xa := w.OpenXA()
 	rng := NewRng(c.Seed)
 	n := c.Budget(200, 20000)
